@@ -3,7 +3,7 @@
     OCaml natives; [nat], [positive], [N], [Z] stay extracted inductives. *)
 Require Extraction.
 Require Import ExtrOcamlBasic.
-From Gocc Require Import Base.Ranges Base.Utf8 Lex.Scan Lex.Pattern Lex.Deriv Lex.Bisim Lex.LexGen LR.Gen LR.GenAuto LR.Parse LR.ObjParse LR.Resolve LR.ZipTab Front.LitConv Front.GoLit Front.Md Front.TokMap Front.FUnicode Front.FScan Front.PermRun Front.Sdt Front.Sem Front.SemRange Front.SynAst.
+From Gocc Require Import Base.Ranges Base.Utf8 Lex.Scan Lex.Pattern Lex.Deriv Lex.Bisim Lex.LexGen LR.Gen LR.GenAuto LR.Parse LR.ObjParse LR.Resolve LR.ZipTab Front.LitConv Front.GoLit Front.Md Front.TokMap Front.FUnicode Front.FScan Front.PermRun Front.Sdt Front.Sem Front.SemRange Front.SynAst Front.LexAst.
 Extraction "model.ml" add_range classes add_range_cases sorted_disjoint_from
   decode_rune encode_rune
   Scan.scan Scan.scan_n Scan.init Scan.reset Scan.table_dfa
@@ -16,4 +16,5 @@ Extraction "model.ml" add_range classes add_range_cases sorted_disjoint_from
   TokMap.terminals_z FScan.fscan_all PermRun.first_sets_z Sdt.sdt_val
   Sem.sem_verdict Sem.parse_ok Sem.front_accepts SemRange.ranges_ok SemRange.front_accepts_r
   SynAst.gen_input_of_source SynAst.gen_input_of_tokens
+  LexAst.lexgrammar_of_source LexAst.lexgrammar_of_tokens LexAst.parse_pattern LexAst.shipped_ltypes Sem.shipped_ftypes
   LitConv.lit_to_rune GoLit.golit_value GoLit.spell Md.load_md.
